@@ -222,7 +222,7 @@ func c21NewNode(t *testing.T, st *store.Store, rec *c21Recorded) *c21Node {
 type c21Case struct {
 	Shape    c21Shape `json:"shape"`
 	Compress bool     `json:"compress"`
-	Kind     string   `json:"kind"` // uncut | eof | reset | srcfail
+	Kind     string   `json:"kind"` // uncut | eof | reset | srcfail | realsrc-sqlcol | realsrc-dbfile
 	N        int      `json:"n"`
 }
 
@@ -376,6 +376,10 @@ func TestVerif_C21(t *testing.T) {
 		if err := json.Unmarshal(raw, &cs); err != nil {
 			t.Fatal(err)
 		}
+		if strings.HasPrefix(cs.Kind, "realsrc") {
+			c21RealSource(t, r, dir, &cs)
+			return
+		}
 		node := c21NewNode(t, st, rec)
 		defer node.cl()
 		ref, rerr, _ := c21Fetch(node, c21Case{Shape: cs.Shape, Kind: "eof", N: 1 << 30})
@@ -463,6 +467,149 @@ func TestVerif_C21(t *testing.T) {
 	}
 	wg.Wait()
 	r.State(len(cases))
+	c21RealSource(t, r, dir, nil)
+}
+
+// c21RealSource: the backup fails INSIDE the real Store (no re-serving wrapper in
+// between), behind the real Service, fetched by the real Client.
+//
+//	realsrc-sqlcol  a table sorted after a healthy one has a column whose name
+//	                contains a double quote: the real db.Dump emits the first table and
+//	                then fails on the row query of the second (a real, deterministic
+//	                mid-stream failure of the SQL dump)
+//	realsrc-dbfile  the main database file cannot be read (its directory entry is
+//	                replaced by one on which read(2) fails) while the Store copies it
+//	                for a binary backup (a real failure of the file copy)
+//
+// Oracle: the local Store.Backup of the same request says whether the backup can
+// be produced. If it cannot (non-nil error), Client.Backup must return an error;
+// if it can, a nil return must have written the same backup.
+func c21RealSource(t *testing.T, r *kit.Run, dir string, only *c21Case) {
+	ln, err := net.Listen("tcp", "localhost:0")
+	if err != nil {
+		t.Fatal(err)
+	}
+	defer ln.Close()
+	sdir := filepath.Join(dir, "badnode")
+	st := store.New(&store.Config{DBConf: store.NewDBConfig(), Dir: sdir, ID: "c21bad"}, &c21Layer{ln})
+	if err := st.Open(); err != nil {
+		t.Fatalf("harness: open: %v", err)
+	}
+	defer st.Close(true)
+	if err := st.Bootstrap(store.NewServer(st.ID(), st.Addr(), true)); err != nil {
+		t.Fatalf("harness: bootstrap: %v", err)
+	}
+	if _, err := st.WaitForLeader(60 * time.Second); err != nil {
+		t.Fatalf("harness: leader: %v", err)
+	}
+	er := &command.ExecuteRequest{Request: &command.Request{Transaction: true}}
+	for _, q := range []string{
+		`CREATE TABLE a_ok(id INTEGER PRIMARY KEY, v TEXT)`,
+		`INSERT INTO a_ok VALUES(1,'one'),(2,'two'),(3,'three')`,
+		`CREATE TABLE b_bad(id INTEGER PRIMARY KEY, "we""ird" TEXT)`,
+		`INSERT INTO b_bad VALUES(1,'x')`,
+	} {
+		er.Request.Statements = append(er.Request.Statements, &command.Statement{Sql: q})
+	}
+	resp, _, err := st.Execute(context.Background(), er)
+	if err != nil {
+		t.Fatalf("harness: execute: %v", err)
+	}
+	for _, rr := range resp {
+		if e := rr.GetError() + rr.GetE().GetError(); e != "" {
+			t.Fatalf("harness: %s", e)
+		}
+	}
+	// everything into the main file, WAL empty: a binary backup then copies the file without a snapshot
+	if err := st.Snapshot(0); err != nil {
+		t.Fatalf("harness: snapshot: %v", err)
+	}
+
+	lnm, mux := mustNewMux()
+	go mux.Serve()
+	svc := New(mux.Listen(1), st, mustNewMockManager(), mustNewMockCredentialStore())
+	if err := svc.Open(); err != nil {
+		t.Fatalf("harness: %v", err)
+	}
+	defer func() { svc.Close(); lnm.Close(); mux.Close() }()
+
+	dbFile := filepath.Join(sdir, "db.sqlite")
+	breakFile := func() func() {
+		if err := os.Rename(dbFile, dbFile+".real"); err != nil {
+			t.Fatalf("harness: %v", err)
+		}
+		if err := os.Symlink(sdir, dbFile); err != nil { // read(2) on a directory fails with EISDIR
+			t.Fatalf("harness: %v", err)
+		}
+		return func() {
+			os.Remove(dbFile)
+			if err := os.Rename(dbFile+".real", dbFile); err != nil {
+				t.Fatalf("harness: %v", err)
+			}
+		}
+	}
+
+	cases := []c21Case{}
+	for _, gz := range []bool{false, true} {
+		cases = append(cases,
+			c21Case{c21Shape{"sql", false, ""}, gz, "realsrc-sqlcol", 0},
+			c21Case{c21Shape{"sql", false, "a_ok,b_bad"}, gz, "realsrc-sqlcol", 0},
+			c21Case{c21Shape{"sql", false, "a_ok"}, gz, "realsrc-sqlcol", 0}, // the healthy table alone: can be produced
+			c21Case{c21Shape{"binary", false, ""}, gz, "realsrc-sqlcol", 0},  // the file copy does not care about names
+			c21Case{c21Shape{"binary", false, ""}, gz, "realsrc-dbfile", 0},
+		)
+	}
+	if only != nil {
+		cases = []c21Case{*only}
+	}
+	for _, cs := range cases {
+		restore := func() {}
+		if cs.Kind == "realsrc-dbfile" {
+			restore = breakFile()
+		}
+		var local bytes.Buffer
+		lerr := st.Backup(context.Background(), cs.Shape.request(cs.Compress), &local)
+		c := NewClient(mustNewDialer(1, false, false), 20*time.Second)
+		var out bytes.Buffer
+		rerr := c.Backup(context.Background(), cs.Shape.request(cs.Compress), svc.Addr(), nil, 20*time.Second, &out)
+		restore()
+		r.Eval(1)
+		gz := "uncompressed"
+		if cs.Compress {
+			gz = "compressed"
+		}
+		lo := "local-ok"
+		if lerr != nil {
+			lo = "local-error"
+		}
+		if rerr != nil {
+			r.Distinct(fmt.Sprintf("%s %s %s %s remote-error", cs.Shape, gz, cs.Kind, lo))
+			t.Logf("real source %s: local err=%v; remote err=%v", cs, lerr, rerr)
+			continue
+		}
+		got, lgot := out.Bytes(), local.Bytes()
+		var gerr error
+		if cs.Compress {
+			if got, gerr = c21Gunzip(got); gerr == nil && lerr == nil {
+				lgot, gerr = c21Gunzip(lgot)
+			}
+		}
+		if lerr == nil && gerr == nil && bytes.Equal(got, lgot) {
+			r.Distinct(fmt.Sprintf("%s %s %s %s remote-success-complete", cs.Shape, gz, cs.Kind, lo))
+			continue
+		}
+		r.Distinct(fmt.Sprintf("%s %s %s %s remote-success-INCOMPLETE", cs.Shape, gz, cs.Kind, lo))
+		show := got
+		if len(show) > 160 {
+			show = show[:160]
+		}
+		why := fmt.Sprintf("the Store cannot produce this backup (local Store.Backup: %v)", lerr)
+		if lerr == nil {
+			why = fmt.Sprintf("it differs from the local backup of %d bytes (gunzip: %v)", len(lgot), gerr)
+		}
+		r.Violation(fmt.Sprintf("C21:source-failure-reported-success:%s:remote:%s", cs.Shape.Format, gz),
+			fmt.Sprintf("%s: Client.Backup returned nil with %d payload bytes %q, but %s", cs, len(got), show, why), cs)
+	}
 }
 
 func c21Judge(t *testing.T, r *kit.Run, dir string, node *c21Node, cs c21Case, plain []byte, want string) {
